@@ -214,3 +214,261 @@ def x_values(spec: dict):
         opts.append(st.sampled_from(near))
         opts.append(st.sampled_from(near))
     return st.one_of(*opts)
+
+
+# ------------------------------------------------------------------------------------------------
+# variables, rules, engines
+# ------------------------------------------------------------------------------------------------
+INTEGRAL = ["Bisector", "Centroid", "LargestOfMaximum", "MeanOfMaximum", "SmallestOfMaximum"]
+WEIGHTED = ["WeightedAverage", "WeightedSum"]
+RESOLUTIONS = [1, 2, 3, 5, 10, 17, 64, 100]
+TS_CLASSES = ["Constant", "Linear"]
+NONMONO = [c for c in refmath.SHAPES if c not in refmath.MONOTONIC]
+
+
+def _grid_pad(rg, lo, hi, draw):
+    if rg == "free":
+        p = draw(st.one_of(st.just(0.0), width(rg)))
+        return lo - p, hi + draw(st.one_of(st.just(0.0), width(rg)))
+    u = UNIT[rg]
+    a = int(round(lo * u)) - draw(st.one_of(st.just(0), _grid_width(u)))
+    b = int(round(hi * u)) + draw(st.one_of(st.just(0), _grid_width(u)))
+    if b <= a:
+        b = a + 1
+    return a / u, b / u
+
+
+def term_extent(t):
+    if t["cls"] in ("Constant", "Linear", "Function"):
+        return []
+    return [b for b in refmath.breakpoints(t) if math.isfinite(b)]
+
+
+@st.composite
+def variable_range(draw, terms, rg):
+    pts = [b for t in terms for b in term_extent(t)]
+    if not pts:
+        lo, hi = draw(increasing(rg, 2))
+        return lo, hi
+    lo, hi = min(pts), max(pts)
+    if draw(st.integers(0, 9)) == 0:  # range cutting through the terms
+        return draw(increasing(rg, 2))
+    lo, hi = _grid_pad(rg, lo, hi, draw)
+    if not hi > lo:
+        hi = lo + 1.0
+    return lo, hi
+
+
+@st.composite
+def input_variable(draw, name, rg, classes=None, nterms=(1, 4), flags=True):
+    n = draw(st.integers(*nterms))
+    names = draw(st.permutations(TERM_NAMES))[:n]
+    terms = [draw(shape_term(cls=draw(st.sampled_from(classes or refmath.SHAPES)), rg=rg, name=nm)) for nm in names]
+    lo, hi = draw(variable_range(terms, rg))
+    return {"name": name, "description": "", "enabled": draw(st.sampled_from([True] * 7 + [False])) if flags else True,
+            "min": lo, "max": hi, "lock_range": draw(st.sampled_from([False, False, False, True])) if flags else False,
+            "terms": terms}
+
+
+@st.composite
+def defuzzifier(draw, kind):
+    if kind == "integral":
+        return {"cls": draw(st.sampled_from(INTEGRAL)),
+                "resolution": draw(st.sampled_from(RESOLUTIONS + [1000] if draw(st.integers(0, 19)) == 0 else RESOLUTIONS))}
+    return {"cls": draw(st.sampled_from(WEIGHTED)), "type": draw(st.sampled_from(kind))}
+
+
+@st.composite
+def output_variable(draw, name, rg, profile, n_inputs, nterms=(1, 4), flags=True):
+    n = draw(st.integers(*nterms))
+    names = draw(st.permutations(TERM_NAMES))[:n]
+    terms = []
+    if profile in ("mamdani", "larsen"):
+        terms = [draw(shape_term(rg=rg, name=nm)) for nm in names]
+        dz = draw(defuzzifier("integral"))
+        agg = draw(st.sampled_from(refmath.SNORMS))
+    elif profile == "ts":
+        for nm in names:
+            if draw(st.booleans()):
+                terms.append({"cls": "Constant", "p": [draw(loc(rg))], "h": 1.0, "name": nm})
+            else:
+                k = n_inputs + draw(st.integers(0, 1))
+                terms.append({"cls": "Linear", "p": [draw(loc(rg)) for _ in range(k)], "h": 1.0, "name": nm})
+        dz = draw(defuzzifier(["Automatic", "TakagiSugeno"]))
+        agg = draw(st.sampled_from(refmath.SNORMS + [None, None]))
+    elif profile == "tsukamoto":
+        terms = [draw(shape_term(cls=draw(st.sampled_from(refmath.MONOTONIC)), rg=rg, name=nm)) for nm in names]
+        dz = draw(defuzzifier(["Automatic", "Tsukamoto"]))
+        agg = draw(st.sampled_from(refmath.SNORMS + [None, None]))
+    else:  # inverse tsukamoto
+        terms = [draw(shape_term(cls=draw(st.sampled_from(NONMONO)), rg=rg, name=nm)) for nm in names]
+        dz = draw(defuzzifier(["Automatic"]))
+        agg = draw(st.sampled_from(refmath.SNORMS + [None, None]))
+    lo, hi = draw(variable_range(terms, rg))
+    dflt = math.nan
+    lock_prev = False
+    lock_range = False
+    enabled = True
+    if flags:
+        k = draw(st.integers(0, 5))
+        if k == 0:
+            dflt = draw(loc(rg))
+        elif k == 1:
+            dflt = lo if rg != "free" else lo + 0.25 * (hi - lo)
+        lock_prev = draw(st.sampled_from([False, False, True]))
+        lock_range = draw(st.sampled_from([False, False, True]))
+        enabled = draw(st.sampled_from([True] * 9 + [False]))
+    return {"name": name, "description": "", "enabled": enabled, "min": lo, "max": hi, "lock_range": lock_range,
+            "lock_previous": lock_prev, "default": dflt, "aggregation": agg, "defuzzifier": dz, "terms": terms}
+
+
+HEDGE_POOL = ["not", "very", "somewhat", "extremely", "seldom"]
+
+
+@st.composite
+def proposition(draw, variables, max_hedges=3, allow_any=True):
+    """variables: list of (name, [term names])"""
+    v, tnames = draw(st.sampled_from(variables))
+    nh = draw(st.sampled_from([0, 0, 0, 1, 1, 2, 3][: 4 + max_hedges] if max_hedges else [0]))
+    hedges = [draw(st.sampled_from(HEDGE_POOL)) for _ in range(nh)]
+    if allow_any and draw(st.integers(0, 11)) == 0:
+        return {"var": v, "hedges": hedges + ["any"], "term": None}
+    return {"var": v, "hedges": hedges, "term": draw(st.sampled_from(tnames))}
+
+
+@st.composite
+def antecedent(draw, variables, depth=4, max_hedges=3, allow_any=True):
+    def node(d, root=False):
+        if d <= 0 or (not root and draw(st.integers(0, 3)) == 0):
+            p = draw(proposition(variables, max_hedges, allow_any))
+            p["rp"] = draw(st.integers(0, 5)) == 0
+            return p
+        return {"op": draw(st.sampled_from(["and", "or"])), "l": node(d - 1), "r": node(d - 1),
+                "rp": draw(st.integers(0, 5)) == 0}
+
+    d = draw(st.sampled_from([x for x in [0, 1, 1, 2, 2, 2, 3, 3, 4] if x <= depth]))
+    return node(d, True)
+
+
+def prop_text(p):
+    toks = [p["var"], "is"] + list(p["hedges"]) + ([p["term"]] if p["term"] is not None else [])
+    return " ".join(toks)
+
+
+def ante_text(a, tight=False, top=True):
+    """Print with minimal parentheses for the documented grammar (+ redundant ones where node['rp'])."""
+    op, cl = ("(", ")") if tight else ("( ", " )")
+    if "op" not in a:
+        s = prop_text(a)
+        return f"{op}{s}{cl}" if a.get("rp") else s
+
+    def child(c, right):
+        s = ante_text(c, tight, False)
+        if "op" in c and not c.get("rp"):
+            need = (a["op"] == "and" and c["op"] == "or") or (right and c["op"] == a["op"]) \
+                or (right and a["op"] == "and" and c["op"] == "or")
+            if need:
+                s = f"{op}{s}{cl}"
+        return s
+
+    s = f"{child(a['l'], False)} {a['op']} {child(a['r'], True)}"
+    return f"{op}{s}{cl}" if a.get("rp") else s
+
+
+def ante_postfix(a):
+    if "op" not in a:
+        return prop_text(a)
+    return f"{ante_postfix(a['l'])} {ante_postfix(a['r'])} {a['op']}"
+
+
+def ante_props(a):
+    if "op" not in a:
+        return [a]
+    return ante_props(a["l"]) + ante_props(a["r"])
+
+
+def ante_ops(a):
+    if "op" not in a:
+        return []
+    return [a["op"]] + ante_ops(a["l"]) + ante_ops(a["r"])
+
+
+def weight_str(w, decimals=3):
+    return f"{w:.{decimals}f}"
+
+
+def rule_text(r, decimals=3):
+    cons = " and ".join(prop_text(c) for c in r["cons"])
+    s = f"if {ante_text(r['ante'], r.get('tight', False))} then {cons}"
+    if r.get("weight") is not None:
+        s += f" with {weight_str(r['weight'], decimals)}"
+    return s
+
+
+@st.composite
+def rule(draw, in_vars, out_vars, ante_vars=None, depth=3, weights=True, cons_hedges=2, max_conc=3, flags=True):
+    a = draw(antecedent(ante_vars or in_vars, depth))
+    nc = draw(st.sampled_from([1, 1, 1, 2, 2, 3][: 3 + max_conc]))
+    cons = []
+    for _ in range(nc):
+        v, tn = draw(st.sampled_from(out_vars))
+        nh = draw(st.sampled_from([0, 0, 0, 1, 2][: 3 + cons_hedges]))
+        cons.append({"var": v, "hedges": [draw(st.sampled_from(HEDGE_POOL)) for _ in range(nh)],
+                     "term": draw(st.sampled_from(tn))})
+    w = None
+    if weights and draw(st.integers(0, 2)) == 0:
+        w = draw(st.one_of(st.integers(0, 1000).map(lambda k: k / 1000), st.sampled_from([0.0, 0.5, 1.0, 0.25])))
+    return {"ante": a, "cons": cons, "weight": w, "enabled": draw(st.sampled_from([True] * 7 + [False])) if flags else True,
+            "tight": draw(st.booleans())}
+
+
+def activation_general():
+    return st.just({"cls": "General"})
+
+
+@st.composite
+def engine(draw, profile=None, n_in=(1, 3), n_out=(1, 2), n_blocks=(1, 2), n_rules=(1, 6), rg=None, flags=True,
+           out_in_ante=True, activation=None, depth=3, in_classes=None, weights=True):
+    rg = rg or draw(regime())
+    profile = profile or draw(st.sampled_from(["mamdani", "mamdani", "ts", "tsukamoto", "inverse", "hybrid"]))
+    ni = draw(st.integers(*n_in))
+    no = draw(st.integers(*n_out))
+    inames = draw(st.permutations(VAR_NAMES))[:ni]
+    onames = draw(st.permutations(OUT_NAMES))[:no]
+    inputs = [draw(input_variable(nm, rg, classes=in_classes, flags=flags)) for nm in inames]
+    outputs = []
+    for nm in onames:
+        p = profile if profile != "hybrid" else draw(st.sampled_from(["mamdani", "ts", "tsukamoto", "inverse"]))
+        outputs.append(draw(output_variable(nm, rg, p, ni, flags=flags)))
+    ivars = [(v["name"], [t["name"] for t in v["terms"]]) for v in inputs]
+    ovars = [(v["name"], [t["name"] for t in v["terms"]]) for v in outputs]
+    blocks = []
+    nb = draw(st.integers(*n_blocks))
+    for b in range(nb):
+        avars = ivars + (ovars if out_in_ante and draw(st.booleans()) else [])
+        nr = draw(st.integers(*n_rules))
+        rules = [draw(rule(ivars, ovars, ante_vars=avars if draw(st.integers(0, 2)) else ivars, depth=depth,
+                           weights=weights, flags=flags)) for _ in range(nr)]
+        blocks.append({"name": f"rb{b + 1}", "description": "",
+                       "enabled": draw(st.sampled_from([True] * 8 + [False])) if flags else True,
+                       "conjunction": draw(st.sampled_from(refmath.TNORMS)),
+                       "disjunction": draw(st.sampled_from(refmath.SNORMS)),
+                       "implication": draw(st.sampled_from(refmath.TNORMS)),
+                       "activation": draw(activation or activation_general()),
+                       "rules": rules})
+    return {"name": "E", "description": "", "inputs": inputs, "outputs": outputs, "blocks": blocks, "rg": rg,
+            "profile": profile}
+
+
+def input_value(var):
+    """Strategy for one input value of an input variable spec (DESIGN §3 input-row union)."""
+    opts = [st.floats(var["min"], var["max"]) if var["min"] < var["max"] else st.just(var["min"]),
+            st.sampled_from([var["min"], var["max"], math.inf, -math.inf, math.nan,
+                             var["min"] - 1.0, var["max"] + 1.0])]
+    for t in var["terms"]:
+        opts.append(x_values(t))
+    return st.one_of(*opts)
+
+
+def input_row(spec):
+    return st.tuples(*[input_value(v) for v in spec["inputs"]]).map(list)
